@@ -237,3 +237,39 @@ def wrap_instance_tables(obj, _seen=None):
         elif hasattr(v, "_parse") and hasattr(v, "__dict__"):
             wrap_instance_tables(v, _seen)
     return obj
+
+
+def load_extra(copy, relpath, name=None):
+    """execute one more source file of the repository (gallery formats) against copy `copy`,
+    with the same passes and shims as the package itself; returns the module namespace.
+    The file's own imports of `construct` resolve to the copy."""
+    import types
+    fn = os.path.join(copy.root, relpath)
+    with open(fn, encoding="utf-8") as f:
+        src = f.read()
+    modname = name or ("symx_extra_" + relpath.replace("/", "_").replace(".py", ""))
+    m = types.ModuleType(modname)
+    m.__file__ = fn
+    with activate(copy):
+        if copy.instrumented:
+            tree = shims.instrument_source(src, fn)
+            m.__dict__.update(shims.HOOKS_EXTRA)
+            code = compile(tree, fn, "exec")
+            real_io, real_struct = sys.modules["io"], sys.modules["struct"]
+            sys.modules["io"] = shims.ShIO()
+            sys.modules["struct"] = shims.ShStructMod()
+            try:
+                exec(code, m.__dict__)
+            finally:
+                sys.modules["io"], sys.modules["struct"] = real_io, real_struct
+            m.__dict__.update(shims.INJECT)
+            m.__dict__.update(shims.HOOKS_EXTRA)
+            for attr, val in list(m.__dict__.items()):
+                if isinstance(val, type) and getattr(val, "__module__", "") == modname:
+                    for cattr, cval in list(vars(val).items()):
+                        w = tables.wrap_value(cval)
+                        if w is not None:
+                            setattr(val, cattr, w)
+        else:
+            exec(compile(src, fn, "exec"), m.__dict__)
+    return m
